@@ -91,6 +91,17 @@ pub fn dress(scn: &mut Scenario, rng: &mut Rng, consistent_chain: bool) {
             }
         }
     }
+    if rng.chance(1, 4) {
+        let style = rng.range(1, 3) as u8;
+        for r in scn.runs.iter_mut() {
+            r.path_style = style;
+        }
+    }
+    if rng.chance(1, 8) && scn.runs.iter().all(|r| r.fresh_data) {
+        for r in scn.runs.iter_mut() {
+            r.dump_in_data = true;
+        }
+    }
     if rng.chance(1, 5) {
         let v = rng.range(1, 2) as u8;
         for r in scn.runs.iter_mut() {
